@@ -111,7 +111,11 @@ def _replay_encoding(enc):
         rc0, out0, err0 = ctx.ironplcc(['check'], {'f.st': text.encode('utf-8')})
         rc, out, err_ = ctx.ironplcc(['check'], {'f.st': data})
         key = lambda rc_, e: (rc_, sorted(re.findall(r'error\[(P\d{4})\]', e)), sorted(re.findall(r'f\.st:(\d+:\d+)', e)))
-        return key(rc, err_) != key(rc0, err0), {'encoding': enc, 'utf8_result': key(rc0, err0), 'this_result': key(rc, err_)}
+        # the token listing shows every token with its (byte based) line and column: the decoded text itself is observable there
+        t0 = ctx.ironplcc(['tokenize'], {'f.st': text.encode('utf-8')}); t1 = ctx.ironplcc(['tokenize'], {'f.st': data})
+        strip = lambda out: re.sub(r'\x1b\[[0-9;]*m', '', out[1])
+        bad = key(rc, err_) != key(rc0, err0) or (t0[0], strip(t0)) != (t1[0], strip(t1))
+        return bad, {'encoding': enc, 'utf8_result': key(rc0, err0), 'this_result': key(rc, err_), 'tokenize_same': (t0[0], strip(t0)) == (t1[0], strip(t1))}
     return rp
 
 
